@@ -1,16 +1,17 @@
-\* tqcache alone: must be strictly linearizable
+\* quick: bloom over tqcache, ideal design (repaired hasCached order, atomic write+add), false positives, evictions, build running: strictly linearizable
 SPECIFICATION Spec
-CONSTANTS NK = 2
-          Procs = {"p1", "p2", "p3"}
-          KindsOf <- RolesMRX
+CONSTANTS NK = 1
+          Procs = {"p1", "p2"}
+          KindsOf <- RolesNoMany
           UseTQ = TRUE
-          UseBloom = FALSE
+          UseBloom = TRUE
           Impl = {}
-          AllowFP = FALSE
-          MaxRebuilds = 0
+          AllowFP = TRUE
+          MaxRebuilds = 1
           MaxOps = 1
-          InitBuild = "ok"
+          InitBuild = "run"
           InitStores <- AllStores
           Evictions = TRUE
-INVARIANTS TypeOK Linearizable NoLostPut LockOK CacheCoherent
+          Coarse = TRUE
+INVARIANTS TypeOK Linearizable NoLostPut NoRaceWithoutWindow ActiveImpliesComplete CompleteCovers LockOK CacheCoherent
 CHECK_DEADLOCK FALSE
